@@ -114,6 +114,12 @@ def specOutcome (flag : Bool) (P : Prog) : String :=
 /-- `P01 stack text₁ text₂|= items…` -/
 def handleP01 (toks : List String) : String :=
   match toks with
+  | [so, t1, "=", "x"] =>
+    -- a statement whose numeric operand is spelled with text that is not a literal at all
+    -- (I1: `#65536`, `x10000`, `x-8001`, `#-32769`, …): the specification rejects it
+    match parseHex so, parseText t1 with
+    | some so, some t1 => "M " ++ canonOutcome (assemble (so != 0) [] t1).1 ++ " ;; S reject"
+    | _, _ => "bad-request"
   | so :: t1 :: t2 :: items =>
     match parseHex so, parseText t1, (if t2 == "=" then some none else (parseText t2).map some),
         items.mapM parseItem with
